@@ -1,6 +1,6 @@
 """C05 — sketch of a union is the position-wise join; SetSketch merge is exact (structural clauses)."""
 from .. import hirq, nf, slicer
-from ..rulelib import (tree_of, user_nodes, writes_to_self, self_method_calls, mutating_self_calls, hir_dominates,
+from ..rulelib import (resolver_of, tree_of, user_nodes, writes_to_self, self_method_calls, mutating_self_calls, hir_dominates,
                        for_loops, loop_exits, def_exprs, short)
 from . import C04
 
@@ -60,7 +60,7 @@ def _disjuncts(c):
     return [c]
 
 
-def _compares_field(d, f, other="other", neg=False):
+def _compares_field(d, f, other="other", neg=False, R=None):
     """disjunct d is `self.f != other.f` or `|self.f - other.f| / self.f >= eps`-like (true when they differ); with neg the
     node is a conjunct of an acceptance test and its negation is the disjunct"""
     d = nf.strip(d)
@@ -71,13 +71,13 @@ def _compares_field(d, f, other="other", neg=False):
     if neg:
         op = {"==": "!=", "<": ">=", "<=": ">", ">": "<=", ">=": "<"}.get(op)
     if op == "!=":
-        return {nf.nf(d["l"]), nf.nf(d["r"])} == {a, b}
+        return {nf.nf(d["l"], res=R), nf.nf(d["r"], res=R)} == {a, b}
     if op in (">=", ">"):
-        l = nf.nf(d["l"])
-        return a in l and b in l and ".abs()" in l and a not in nf.nf(d["r"]) and b not in nf.nf(d["r"])
+        l = nf.nf(d["l"], res=R)
+        return a in l and b in l and ".abs()" in l and a not in nf.nf(d["r"], res=R) and b not in nf.nf(d["r"], res=R)
     if op in ("<=", "<"):
-        r = nf.nf(d["r"])
-        return a in r and b in r and ".abs()" in r and a not in nf.nf(d["l"]) and b not in nf.nf(d["l"])
+        r = nf.nf(d["r"], res=R)
+        return a in r and b in r and ".abs()" in r and a not in nf.nf(d["l"], res=R) and b not in nf.nf(d["l"], res=R)
     return False
 
 
@@ -123,9 +123,12 @@ def _helper_tests(facts, c):
     return tests
 
 
-def _guard_compares(facts, r, f):
-    for d in _disjuncts(r["c"]):
-        if _compares_field(d, f):
+def _guard_compares(facts, r, f, R=None):
+    c = nf.simplify_bool(r["c"], False, R)
+    if c is True or c is False:
+        return False
+    for d in _disjuncts(c):
+        if _compares_field(d, f, R=R):
             return True
         ht = _helper_tests(facts, d)
         if ht and any(_compares_field(n, f, o, neg) for (n, o, neg) in ht):
@@ -140,12 +143,13 @@ def merge_rules(ctx, facts):
     fields = param_fields(facts)
     ctx.floor("C05 parameter fields copied by SetSketcher::new", len(fields), 4)
     rej = _rejecting_ifs(fn)
+    R = resolver_of(fn)
     effects = [w for (w, f, i) in writes_to_self(fn)] + [n for (n, k) in mutating_self_calls(fn)]
     if not effects:
         ctx.violation("MERGE-b", fid, "no effect", hirq.loc(fn), "merge has no effect on self at all")
         return
     for f in fields:
-        guards = [r for r in rej if _guard_compares(facts, r, f)]
+        guards = [r for r in rej if _guard_compares(facts, r, f, R)]
         if not guards:
             ctx.violation("MERGE-a", fid, "parameter %s not compared" % f, hirq.loc(fn),
                           "no rejecting comparison of self.%s with other.%s precedes the merge: sketches with different %s would be merged" % (f, f, f))
@@ -158,8 +162,11 @@ def merge_rules(ctx, facts):
             ctx.ok("MERGE-a", fid, "self.%s vs other.%s rejected at %s before the first effect" % (f, f, hirq.loc(guards[0])), hirq.loc(guards[0]))
     # MERGE-c
     def _only_params(r):
-        for d in _disjuncts(r["c"]):
-            if any(_compares_field(d, f) for f in fields):
+        c_ = nf.simplify_bool(r["c"], False, R)
+        if c_ is True or c_ is False:
+            return False
+        for d in _disjuncts(c_):
+            if any(_compares_field(d, f, R=R) for f in fields):
                 continue
             ht = _helper_tests(facts, d)
             if ht and all(any(_compares_field(n, f, o, neg) for f in fields) for (n, o, neg) in ht):
@@ -233,6 +240,9 @@ def lower_rules(ctx, facts):
                             ctx.ok("LOWER", fid, "lower_k initialised to 0", hirq.loc(f["e"]))
                         else:
                             ctx.violation("LOWER", fid, "lower_k initial value", hirq.loc(f["e"]), "lower_k must start at 0 (a true lower bound of the zero registers), found %s" % nf.nf(f["e"]))
+        from .. import inline as _inline
+        if _inline.absorbed(facts, fid):
+            continue     # a new private helper whose every call was inlined: its writes are judged in its callers
         for (w, _f, _i) in writes_to_self(fn, "lower_k"):
             n += 1
             name = short(fid)
